@@ -892,7 +892,7 @@ def _make_lgf_wrapper(orig):
         Yl = function_logger.Y[:n_logged].copy()
         Sl = function_logger.S[:n_logged].copy() if function_logger.noise_flag else None
         ref = np.array(current_point, dtype=float, copy=True).reshape(-1)
-        n_min = options["n_train_min"]
+        n_min = max(options["n_train_min"], options["n_train_max"] - options["buffer_ntrain"])   # configured minimum
         n_max = options["n_train_max"]
         w.in_lgf += 1
         try:
